@@ -31,7 +31,7 @@ m = {
     "version": 1,
     "setup_cmd": "./bin/vsetup",
     "hooks": {"guard": "verif", "enable": "go build -tags verif ./internal/verifcmd (files internal/wire/verif_hooks.go, internal/verifcmd/main.go, both //go:build verif)",
-              "baseline_off_cmd": "cd /repo && GOFLAGS=-mod=mod go test -vet=off -count=1 ./...",
+              "baseline_off_cmd": "cd /repo && go test -mod=mod -json -vet=off -count=1 -timeout 25m ./...",
               "source_commits": props.HOOK_COMMITS, "add_only": True},
     "engines": [
         {"name": "rocq-model", "path": "coq/", "serves_properties": [c["property_id"] for c in checks], "kind_free_text": "Coq 8.16.1 development: executable model, refinement proofs, Properties.v"},
